@@ -41,7 +41,7 @@ class Pos(int, utype.Rule):
     gt = 0
 
 {deco}class {cname}({base}):
-{options}    req: int
+{options}{req}
     opt: int = utype.Field(required=False)
     pos: Pos = 1
     name: str = utype.Field(max_length=4, alias='Name', default='n')
@@ -60,6 +60,11 @@ class Pos(int, utype.Rule):
     @utype.Field(dependencies=['hidden'])
     def hsum(self) -> int:
         return self.hidden + 100
+
+    @property
+    @utype.Field(dependencies=['pos', 'hidden'])
+    def mix(self) -> int:
+        return self.pos * 1000 + self.hidden
 {sub}'''
 SUB = '''
 
@@ -72,7 +77,7 @@ FIELDS = {   # attname -> (output name, kind)
 }
 KEYS = {  # accepted spellings -> attname
     "req": "req", "opt": "opt", "pos": "pos", "name": "name", "Name": "name", "imm": "imm", "ci": "ci", "CI": "ci", "Ci": "ci", "CiAlt": "ci", "cialt": "ci",
-    "hidden": "hidden", "ex": "ex", "tags": "tags", "double": "double", "hsum": "double",
+    "hidden": "hidden", "ex": "ex", "tags": "tags", "double": "double", "hsum": "double", "mix": "double",
 }
 UNKNOWN = ["zz", "x1"]
 _n = [0]
@@ -114,16 +119,18 @@ def _types():
         _TAGS[0] = Rule.parse_annotation(typing.List[Pos])
 
 
-IMM_FORMS = {   # three documented ways to say "this field cannot be reassigned or deleted"
+REQ_FORMS = {"required": "    req: int", "default": "    req: int = 3"}     # "default": no field of the class is required
+IMM_FORMS = {   # three documented ways to say "this field cannot be reassigned or deleted" ("plain": an ordinary field instead)
+    "plain": "    imm: int = 5",
     "field": "    imm: int = utype.Field(immutable=True, default=5)",
     "final": "    imm: Final[int] = 5",
     "final_field": "    imm: Final[int] = utype.Field(default=5, ge=0)",
 }
 
 
-def declare(base, options, inherit=False, imm="field"):
+def declare(base, options, inherit=False, imm="field", req="required"):
     _types()
-    SRC_ = SRC.replace("{imm}", IMM_FORMS[imm])
+    SRC_ = SRC.replace("{imm}", IMM_FORMS[imm]).replace("{req}", REQ_FORMS[req])
     _n[0] += 1
     name = f"vf_c07_m{_n[0]}"
     mod = types.ModuleType(name)
@@ -181,18 +188,18 @@ def check_invariants(inst, is_schema, options, initial_imm, step, inherit=False)
     # unknown keys
     if is_schema:
         for k, v in dict.items(inst):
-            if k not in [o for o, _ in FIELDS.values()] and k not in ("double", "hsum"):
+            if k not in [o for o, _ in FIELDS.values()] and k not in ("double", "hsum", "mix"):
                 if addition is None or addition is False:
                     fails.append((f"unknown-key-stored-although-addition-is-off/{step}", {"key": k}))
                 elif addition == "int" and type(v) is not int:
                     fails.append((f"unparsed-addition-stored/{step}", {"key": k, "value": codec.encode(v)}))
     # (2) required present
     present_req = (dict.__contains__(inst, "req") if is_schema else "req" in vars(inst))
-    if not present_req:
+    if not present_req and SHAPE.get("req", "required") == "required":
         fails.append((f"required-field-missing/{step}", {}))
     # (3) immutable unchanged
     cur = dict.get(inst, "imm", None) if is_schema else vars(inst).get("imm")
-    if not oracle.equal(cur, initial_imm):
+    if not oracle.equal(cur, initial_imm) and SHAPE.get("imm", "field") != "plain":
         fails.append((f"immutable-field-changed/{step}", {"initial": initial_imm, "now": codec.encode(cur)}))
     # (4) views agree
     for att, (out, kind) in FIELDS.items():
@@ -243,9 +250,28 @@ def check_invariants(inst, is_schema, options, initial_imm, step, inherit=False)
             fails.append((f"dependent-property-stale/of-no_output-field/attribute/{step}", {"hidden": hid, "hsum": codec.encode(h)}))
         if is_schema and dict.__contains__(inst, "hsum") and dict.__getitem__(inst, "hsum") != hid + 100:
             fails.append((f"dependent-property-stale/of-no_output-field/key/{step}", {"hidden": hid, "hsum": codec.encode(dict.__getitem__(inst, 'hsum'))}))
+    # a property over two fields, one of them never shown in the key view
+    vals = {}
+    for att in ("pos", "hidden"):
+        try:
+            vals[att] = getattr(inst, att)
+        except AttributeError:
+            vals[att] = None
+    if type(vals["pos"]) is int and type(vals["hidden"]) is int:
+        want = vals["pos"] * 1000 + vals["hidden"]
+        try:
+            m = getattr(inst, "mix")
+        except Exception as e:
+            m = ("raised", type(e).__name__)
+        if m != want:
+            fails.append((f"dependent-property-stale/of-two-fields/attribute/{step}", {"pos": vals["pos"], "hidden": vals["hidden"], "mix": codec.encode(m)}))
+        if is_schema and dict.__contains__(inst, "mix") and dict.__getitem__(inst, "mix") != want:
+            fails.append((f"dependent-property-stale/of-two-fields/key/{step}", {"pos": vals["pos"], "hidden": vals["hidden"], "mix": codec.encode(dict.__getitem__(inst, 'mix'))}))
+    # (a property key whose dependency was deleted keeps its last value: tests/test_cls.py asserts that - "slug is not affected")
     return fails
 
 
+SHAPE = {}      # declaration variant of the running case (req form, imm form)
 SINGLE = ("setattr", "delattr", "setitem", "delitem", "pop", "pop_default", "setdefault", "popitem")
 
 
@@ -292,7 +318,7 @@ def predict(op, inst, is_schema, options, inherit=False):
             return None
         if att is None or att == "double":
             return None
-        if imm_all or att == "imm":
+        if imm_all or (att == "imm" and SHAPE.get("imm", "field") != "plain"):
             return "refuse"
         v = codec.decode(op["value"])
         ok = valid_for("pos" if (inherit and att == "req") else FIELDS[att][1], v)
@@ -304,7 +330,7 @@ def predict(op, inst, is_schema, options, inherit=False):
             return None
         if att is None or att == "double":
             return None
-        if imm_all or att in ("imm", "req"):
+        if imm_all or (att == "imm" and SHAPE.get("imm", "field") != "plain") or (att == "req" and SHAPE.get("req", "required") == "required"):
             return "refuse"
         out = FIELDS[att][0]
         present = dict.__contains__(inst, out) if is_schema else att in vars(inst)
@@ -329,10 +355,12 @@ def run_case(case):
         if key not in ("addition", "ignore_delete_nonexistent", "immutable"):
             raise HarnessError("bad option")
     is_schema = base == "Schema"
-    inherit = bool(case.get("inherit")) and base != "deco"
-    if case.get("imm", "field") not in IMM_FORMS:
-        raise HarnessError("bad imm form")
-    mod, M = declare(base, options, inherit, case.get("imm", "field"))
+    inherit = bool(case.get("inherit")) and base != "deco" and case.get("req", "required") == "required"
+    if case.get("imm", "field") not in IMM_FORMS or case.get("req", "required") not in REQ_FORMS:
+        raise HarnessError("bad declaration form")
+    mod, M = declare(base, options, inherit, case.get("imm", "field"), case.get("req", "required"))
+    SHAPE.clear()
+    SHAPE.update(imm=case.get("imm", "field"), req=case.get("req", "required"))
     try:
         data = {k: codec.decode(v) for k, v in init}
         made = oracle.outcome(lambda: M(**data))
@@ -458,9 +486,11 @@ def cases(draw):
         init.append(["zz", draw(st.sampled_from([1, "7"]))])
     ops = draw(st.lists(op_specs(base == "Schema"), min_size=1, max_size=12))
     case = {"base": base, "options": options, "init": init, "ops": ops}
-    imm = draw(st.sampled_from(["field", "field", "final", "final_field"]))
+    imm = draw(st.sampled_from(["field", "field", "final", "final_field", "plain"]))
     if imm != "field":
         case["imm"] = imm
+    if draw(st.sampled_from([False, False, True])):
+        case["req"] = "default"      # no required field: clear(), popitem() ... can empty the instance
     if base != "deco" and draw(st.sampled_from([False, False, True])):
         case["inherit"] = True
     return case
@@ -472,6 +502,7 @@ def campaign(ctx):
         ctx.label(f"status_{r['status']}")
         ctx.label(f"base_{case['base']}")
         ctx.label(f"immutable_declared_as_{case.get('imm', 'field')}")
+        ctx.label(f"req_{case.get('req', 'required')}")
         if r["status"] == "ok":
             for op in case["ops"]:
                 ctx.label(f"op_{op['op']}")
